@@ -2,7 +2,7 @@
 CHECK = {'level': 'exploration',
  'rule': 'rapidcheck generates a well-formed host document (abstract cm::Doc: blocks, frames, scalars, loops, nested lists/tables; CIF 2.0, CIF 1.1 for the 1.1 row), a '
          'hand-rolled renderer turns it into a token list (joined by newlines, blanks, tabs, empty lines, comments) whose line numbers are known from the bytes, and one '
-         'row of the planting table (35 rows covering every defect class of the statement) plants exactly one defect at a generated position; non-trivial = the defect '
+         'row of the planting table (37 rows covering every defect class of the statement) plants exactly one defect at a generated position (two rows plant a container code that is invalid AND repeated: one header to which two recovery rows apply); non-trivial = the defect '
          'sits in a loop header/body, a list/table, a save frame, or at a middle/last item; distinct = hash of the document bytes',
  'assumptions': ['line window = [line of the defect, last line of the token that follows it] (the line on which the input ends when nothing follows)',
                  'CIF_EMPTY_LOOP: the packet-less loop may be absent or present without packets (table: "accept"; code comment: may be pruned)',
